@@ -62,7 +62,9 @@ impl Ellipsoid {
         if a_and_rf.len() == 2_usize {
             if let Ok(a) = a_and_rf[0].trim().parse::<f64>() {
                 if let Ok(rf) = a_and_rf[1].trim().parse::<f64>() {
-                    return Ok(Ellipsoid::new(a, 1. / rf));
+                    // Zero reciproque flattening indicates zero flattening here as well
+                    let f = if rf != 0.0 { 1.0 / rf } else { rf };
+                    return Ok(Ellipsoid::new(a, f));
                 }
             }
         }
